@@ -22,7 +22,7 @@ pub fn generate(seed: u64, tier: Tier) -> Case {
     let family = *rng.pick(&[
         "valid", "valid", "valid", "valid", "error", "vftable_name", "vftable_name",
         "vftable_name", "registry_collision", "disk_collision", "graph", "graph",
-        "shadowed_generated_name", "generated_name_cycle", "twin_modules",
+        "shadowed_generated_name", "generated_name_cycle", "twin_modules", "exhaustive_small",
     ]);
     let mut params = Params::default();
     let (project, mut world) = match family {
@@ -43,6 +43,17 @@ pub fn generate(seed: u64, tier: Tier) -> Case {
         }
         _ => {
             let mut cfg = GenCfg::swarm(&mut rng, max_items, max_modules);
+            if family == "exhaustive_small" {
+                let most = match tier {
+                    Tier::Quick => 4,
+                    Tier::Thorough => 5,
+                };
+                cfg.max_items = rng.range(2, most);
+                cfg.max_modules = rng.range(1, 2);
+                cfg.p_extern = 0;
+                cfg.p_vftable = 60;
+                cfg.p_base = 60;
+            }
             if family == "vftable_name" || family == "registry_collision" {
                 cfg.p_vftable = 90;
                 cfg.max_items = cfg.max_items.max(2);
@@ -73,6 +84,14 @@ pub fn generate(seed: u64, tier: Tier) -> Case {
                     user_defined_vftable_name(&mut rng, &mut p);
                 }
                 "disk_collision" => {}
+                "exhaustive_small" => {
+                    // Small worlds get the interesting ingredients as often as not.
+                    if rng.chance(1, 2) {
+                        mention_generated_vftable(&mut rng, &mut p);
+                    } else {
+                        params.intended_valid = true;
+                    }
+                }
                 _ => unreachable!(),
             }
             let mut files = p.files();
@@ -92,7 +111,31 @@ pub fn generate(seed: u64, tier: Tier) -> Case {
     if rng.chance(1, 6) {
         world.out_exists = false;
     }
-    let builds = diverse_builds(&mut rng, 0, k, Some(&project), true);
+    let builds = if family == "exhaustive_small" {
+        // Every static priority over the user items: all n! resolution orders.
+        let names: Vec<String> = (0..project.items.len())
+            .filter(|i| !matches!(project.items[*i].kind, ItemKind::Extern { .. }))
+            .map(|i| project.full_item_path(i))
+            .collect();
+        let mut perms: Vec<Vec<String>> = vec![];
+        permutations(&mut names.clone(), 0, &mut perms);
+        params.notes.push(format!("exhaustive:{}_items:{}_orders", names.len(), perms.len()));
+        perms
+            .into_iter()
+            .map(|order| crate::run::BuildSpec {
+                world: 0,
+                entry: crate::run::Entry::LibBuild,
+                sched: crate::sched::SchedSpec {
+                    unresolved: crate::sched::OrderSpec::Priority(order, 0),
+                    module_write: crate::sched::OrderSpec::Canonical,
+                    definitions: crate::sched::OrderSpec::Canonical,
+                },
+                repeat: 1,
+            })
+            .collect()
+    } else {
+        diverse_builds(&mut rng, 0, k, Some(&project), true)
+    };
     Case {
         property: "C09".into(),
         family: family.into(),
@@ -693,6 +736,18 @@ pub fn user_defined_vftable_name(rng: &mut Rng, p: &mut Project) -> bool {
         push_simple_type(rng, p, m, idx2, vec![field("inner", Ty::Name(vname))]);
     }
     true
+}
+
+fn permutations(items: &mut Vec<String>, k: usize, out: &mut Vec<Vec<String>>) {
+    if k >= items.len() {
+        out.push(items.clone());
+        return;
+    }
+    for i in k..items.len() {
+        items.swap(k, i);
+        permutations(items, k + 1, out);
+        items.swap(k, i);
+    }
 }
 
 pub fn evaluate(case: &Case, results: &[Vec<RunResult>]) -> Verdict {
